@@ -525,3 +525,9 @@ def run(ctx):
         consumption_nest(ctx, gauss_site[2], "C14-j")
     except RoleLost as e:
         ctx.note("C14-j: restated clause skipped — %s" % e)
+    from . import common
+    ctx.rule("C14-k", "the coordinates read are the caller's: the x-space entry hands its point to the sampling routine unmodified")
+    common.entry_forwards_inputs(ctx, R, "C14-k")
+    # … and the λ coordinate reaches the quantile routine as read (a clamp in the wrapper makes λ constant on part of its coordinate's range)
+    from .c12 import wrapper_forwards
+    wrapper_forwards(ctx, R, "C14-k")
